@@ -79,6 +79,10 @@ def scenarios(rng):
         pq = x[0] * x[1] + 0.0
         pgq = [x[0], 1 - x[0] ** 2, 1 - x[1] ** 2]
         out.append(('poly_q2_monomial_constraint', lambda: sp.poly_constrained_relaxation(pq, pgq, [], form='dual', p=0, q=2, ell=0), 'poly', pq, pgq, []))
+        # a domain that keeps |x_i| away from 0 together with a tiny moment: the magnitude least squares is infeasible
+        pa = x[0] ** 2 * x[1] ** 2 + x[0] ** 2 + x[1] ** 2 - x[0] * x[1]
+        XA = sp.infer_domain(pa, [x[0] ** 2 - 0.01, x[1] ** 2 - 0.01, 1 - x[0] ** 2, 1 - x[1] ** 2], [])
+        out.append(('poly_annulus_domain', lambda: sp.poly_constrained_relaxation(pa, [], [], XA, form='dual'), 'poly', pa, [], []))
         out.append(('poly_lifted_domain', lambda: sp.poly_constrained_relaxation(p, pg2, [], XP, form='dual', p=0, q=1, ell=0), 'poly', p, pg2, []))
     return out
 
@@ -145,7 +149,9 @@ def run_one(ctx, name, build, kind, f, gts, eqs, opts):
     meta = {'name': name, 'candidates': len(cands), 'returned': len(sols), 'rejected': sum(1 for c in cands if not c[6])}
     if not cands:
         return None, None, meta
-    # map returned points to candidate ids (first unused exact match)
+    # map returned points to candidate ids (first unused exact match); the sort key of a returned candidate is recomputed on the very
+    # object that was returned (the implementation's key function sees that object: evaluating f on a copy of another shape can
+    # differ in the last bit, and sign-symmetric candidates have nearly equal values)
     used, ids = set(), []
     for s in sols:
         m = next((c[0] for c in cands if c[0] not in used and np.array_equal(c[1], np.asarray(s, dtype=float))), None)
@@ -153,6 +159,9 @@ def run_one(ctx, name, build, kind, f, gts, eqs, opts):
             return ('%s: a returned point was never tested by is_feasible' % name), None, meta
         used.add(m)
         ids.append(Nat(m))
+        fs_ = f(s)
+        c_old = cands[m]
+        cands[m] = c_old[:7] + (Fraction(*np.longdouble(fs_).as_integer_ratio()) if np.isfinite(fs_) else Fraction(0),)
     if kind == 'sig':
         # sig_solrec filters inside the generators and sorts the union: only candidates that passed are sorted
         pass
@@ -163,7 +172,7 @@ def run_one(ctx, name, build, kind, f, gts, eqs, opts):
 
 def run(ctx):
     cases = []
-    optsets = [{}, {'skip_ls': True}, {'ineq_tol': 1e-6, 'eq_tol': 1e-4}, {'ineq_tol': 1e-9, 'eq_tol': 0.25}, {'all_signs': False}, {'heuristic_signs': False, 'zero_tol': 1e-12}]
+    optsets = [{}, {'zero_tol': 1e-6}, {'skip_ls': True}, {'ineq_tol': 1e-6, 'eq_tol': 1e-4}, {'ineq_tol': 1e-9, 'eq_tol': 0.25}, {'all_signs': False}, {'heuristic_signs': False, 'zero_tol': 1e-12}]
     for rep in range(ctx.n(1, 6)):
         for name, build, kind, f, gts, eqs in scenarios(ctx.rng):
             for opts in (optsets if rep == 0 else [ctx.rng.choice(optsets)]):
